@@ -1351,12 +1351,6 @@ func TestVerifC01Lab(t *testing.T) {
 			if goFail != "" {
 				rec["go_fail"] = goFail
 			}
-			// known finding rrsig-question-insecure-delegation, tagged by what was OBSERVED: an RRSIG question went before on
-			// this resolver and the validating client now gets a reply WITHOUT AD that is not a refusal (the zone is treated
-			// as unsigned). AD on forged data, or any failure without such a history, stays strict.
-			if pre.t == dns.TypeRRSIG && !cd && tz.secure && m.Rcode != dns.RcodeServerFailure && !m.AuthenticatedData {
-				rec["fkey"] = "rrsig-question-insecure-delegation"
-			}
 			tr.emit(rec)
 		}
 		for _, s := range lab.servers {
